@@ -13,6 +13,7 @@ UNITS["C03"] = [
     dict(test="TestC03_Edits", quick=dict(checks=25, shards=8, shrinktime="10s"), thorough=dict(checks=250, shards=16, timeout=3000)),
     dict(test="TestC03_Raw", quick=dict(checks=3000, shards=2), thorough=dict(checks=60000, shards=8)),
     dict(test="TestC03_Lists", quick=dict(checks=1500, shards=1), thorough=dict(checks=30000, shards=4)),
+    dict(test="TestC03_Pairs", quick=dict(), thorough=dict()),
     dict(test="TestC03_Sizes", crash_is_violation=True, quick=dict(), thorough=dict(timeout=3000)),
     dict(test="TestC03_StackLimit", quick=dict(skip=True), thorough=dict(timeout=3000)),
     dict(fuzz="FuzzAPI", thorough=dict(fuzztime=15)),
